@@ -73,7 +73,7 @@ ImpCtx == [i \in 1..NCtx |-> M!IStack(CtxSeq[i].chain)]
 
 (* accounts asked for in every context *)
 \* (the rule families vary only the subject's rules: the other signers' accounts are covered by the other families)
-Accts == IF Family \in {"rules1", "rules2"} THEN << "S", "X", "caller" >>
+Accts == IF Family \in {"rules1", "rules2", "rules"} THEN << "S", "X", "caller" >>
          ELSE << "S", "P", "T", "X", "caller", "current", "entry" >>
 Resolve(a, x) ==
     CASE a = "caller"  -> IF x.caller = W!NoCaller THEN "Z" ELSE x.caller
@@ -150,7 +150,9 @@ Configs ==
       [] Family = "mixed"   -> Mixed
       [] Family = "subject" -> Subject
       [] Family = "zero"    -> ZeroFam
-      [] Family = "small"   -> Basic \cup ZeroFam \cup Subject
+      [] Family = "std"     -> Basic \cup Mixed \cup Subject \cup ZeroFam
+      [] Family = "rules"   -> Rules1 \cup Rules2
+      [] Family = "small"   -> Basic \cup ZeroFam \cup {Std(s) : s \in SubjScopes("S")}
 
 ----------------------------------------------------------------------------
 VARIABLES cfg, out
